@@ -85,6 +85,20 @@ pub fn gen(ctx: &mut Ctx) {
         run_ccase(ctx, "C02", &w, &[cstep(COp::Reg(r))]);
         ctx.stat("c02.corpus.idlen");
     }
+    // the same account (user id) registering again: at the same RP, at another RP, and a different account in between
+    for kind in [Kind::Map, Kind::RefFull, Kind::RefForced] {
+        let w = World { kind, counter_on: true, id_len: 16, hm: Hm::None, preload: vec![] };
+        let user = ctx.rng.bytes_in(1, 32);
+        let mut steps = vec![];
+        for (site, rp, same) in [("https://www.example.com", "example.com", true), ("https://www.example.com", "example.com", true), ("https://accounts.example.org", "accounts.example.org", true),
+                                  ("https://www.example.com", "example.com", false), ("https://www.example.com", "example.com", true)] {
+            let mut r = simple_reg(ctx, site, Some(rp)); if same { r.user = user.clone(); }
+            r.sel = Some(Sel { rk: Some(Rk::Required), rrk: true, uv: UvR::Preferred });
+            steps.push(cstep(COp::Reg(r)));
+        }
+        run_ccase(ctx, "C02", &w, &steps);
+        ctx.stat("c02.corpus.same_account_again");
+    }
     let n = if ctx.thorough { 1500 } else { 150 };
     for i in 0..n {
         let kind = [Kind::RefFull, Kind::Map, Kind::RefForced, Kind::RefNonDisc, Kind::Slot][i % 5];
